@@ -67,14 +67,15 @@ def allDigits (s : Bytes) : Bool := s.all isDigit
 
 /-- `str::parse::<iN>()`: optional `+`/`-`, at least one ASCII digit, nothing else, in range. -/
 def parseIntRange (lo hi : Int) (s : Bytes) : Out Int :=
-  let (neg, ds) : Bool × Bytes := match s with
-    | 45 :: r => (true, r)
-    | 43 :: r => (false, r)
-    | r => (false, r)
-  if ds.isEmpty || !allDigits ds then .err
-  else
-    let v : Int := if neg then -(parseNat ds : Int) else (parseNat ds : Int)
-    if lo ≤ v ∧ v ≤ hi then .ok v else .err
+  match s with
+  | [] => .err
+  | b :: r =>
+    let neg : Bool := b = 45
+    let ds : Bytes := if b = 45 ∨ b = 43 then r else b :: r
+    if ds.isEmpty || !allDigits ds then .err
+    else
+      let v : Int := if neg then -(parseNat ds : Int) else (parseNat ds : Int)
+      if lo ≤ v ∧ v ≤ hi then .ok v else .err
 
 def i16Lo : Int := -32768
 def i16Hi : Int := 32767
@@ -268,6 +269,155 @@ def parseDate (s : Bytes) : Out Int :=
   | some (y, m, d, []) =>
     if chronoMinYear ≤ y ∧ y ≤ chronoMaxYear ∧ validYmd y m d then .ok (daysFromCivil y m d) else .err
   | _ => .err
+
+/-! ### timestamp (src/types/timestamp.rs): µs, offset by 30 years; printed through chrono -/
+
+def thirtyYearsUs : Int := 946684800000000
+
+/-- `DateTime::from_timestamp_millis` accepts what fits chrono's date range -/
+def tsMsInRange (ms : Int) : Bool :=
+  dateInRange (ms / 86400000)
+
+/-- `NaiveTime` Display fraction: nothing, `.mmm` (chrono prints 3, 6 or 9 digits; only whole
+milliseconds can occur here) -/
+def fmtFrac (msPart : Int) : Bytes :=
+  if msPart = 0 then [] else 46 :: padZero 3 (natDigits msPart.natAbs)
+
+def fmtHms (secOfDay : Int) : Bytes :=
+  fmt2 (secOfDay / 3600) ++ [58] ++ fmt2 (secOfDay / 60 % 60) ++ [58] ++ fmt2 (secOfDay % 60)
+
+/-- `Timestamp::fmt`: `(us - 30y) / 1000` (i64, truncating; the subtraction overflows below
+`i64::MIN + 30y`), `from_timestamp_millis` (error → `to_string` panics), then `naive_sys_fmt`:
+years < 0 as `-year … BC`, otherwise chrono's `NaiveDateTime` Display. -/
+def displayTimestamp (us : Int) : Out Bytes :=
+  if us - thirtyYearsUs < i64Lo then .panic
+  else
+    let ms := Int.tdiv (us - thirtyYearsUs) 1000
+    if !tsMsInRange ms then .panic
+    else
+      let day := ms / 86400000
+      let msOfDay := ms % 86400000
+      let (y, m, d) := civilFromDays day
+      let time := fmtHms (msOfDay / 1000)
+      if y < 0 then
+        .ok (padZero 4 (natDigits y.natAbs) ++ [45] ++ fmt2 m ++ [45] ++ fmt2 d ++ [32] ++ time ++
+             [32, 66, 67])
+      else
+        .ok (fmtYmd y m d ++ [32] ++ time ++ fmtFrac (msOfDay % 1000))
+
+/-- `TimestampTz::fmt` with the (only) system offset `+00:00` -/
+def displayTimestampTz (us : Int) : Out Bytes :=
+  match displayTimestamp us with
+  | .ok t => .ok (t ++ [32, 43, 48, 48, 58, 48, 48])
+  | e => e
+
+/-- `%Y-%m-%d %H:%M:%S` prefix → (y, m, d, H, M, S, rest) -/
+def scanYmdHms (s : Bytes) : Option (Int × Int × Int × Int × Int × Int × Bytes) :=
+  (scanYmd s).bind fun a =>
+  (scan2 a.2.2.2).bind fun h =>   -- the space of the format matches ≥ 0 white space, which the
+                                  -- numeric item skips itself
+  (expectByte 58 h.2).bind fun r2 =>
+  (scan2 r2).bind fun mi =>
+  (expectByte 58 mi.2).bind fun r3 =>
+  (scan2 r3).bind fun se =>
+  some (a.1, a.2.1, a.2.2.1, h.1, mi.1, se.1, se.2)
+
+def timestampOfCivil (y m d h mi se : Int) : Int :=
+  (daysFromCivil y m d * 86400 + h * 3600 + mi * 60 + se) * 1000000 + thirtyYearsUs
+
+/-- `Timestamp::from_str` restricted to the shapes `Display` produces (`… HH:MM:SS`, optional
+` BC`; any other suffix, e.g. a fraction, is rejected).  `none` = outside the modelled grammar
+(time-zone suffixes, ` AD`), the driver then answers `unmodelled`. -/
+def parseTimestamp (s : Bytes) : Option (Out Int) :=
+  match scanYmdHms s with
+  | some (y, m, d, h, mi, se, rest) =>
+    if ¬ (chronoMinYear ≤ y ∧ y ≤ chronoMaxYear ∧ validYmd y m d ∧ h ≤ 23 ∧ mi ≤ 59 ∧ se ≤ 60) then some .err
+    else if rest = [] then
+      if se = 60 then none else some (.ok (timestampOfCivil y m d h mi se))
+    else if rest = [32, 66, 67] then
+      -- `with_year(-year)`: Feb 29 may not exist in the mirrored year
+      if se = 60 then none
+      else if ¬ (chronoMinYear ≤ -y ∧ validYmd (-y) m d) then some .err
+      else some (.ok (timestampOfCivil (-y) m d h mi se))
+    else if rest.head? = some 46 then some .err      -- fraction: `%S` does not take it
+    else none
+  | none => some .err     -- every accepted format starts with `%Y-%m-%d %H:%M:%S`
+
+/-! ### interval (src/types/interval.rs) -/
+
+/-- the six printed fields: years, months, days, hours, minutes, seconds (Rust `/` and `%`
+truncate toward zero) -/
+def intervalFields (months days ms : Int) : List Int :=
+  [Int.tdiv months 12, Int.tmod months 12, days,
+   Int.tdiv (Int.tdiv (Int.tdiv ms 1000) 60) 60,
+   Int.tmod (Int.tdiv (Int.tdiv ms 1000) 60) 60,
+   Int.tmod (Int.tdiv ms 1000) 60]
+
+def unitNames : List Bytes :=
+  [[121, 101, 97, 114], [109, 111, 110, 116, 104], [100, 97, 121], [104, 111, 117, 114],
+   [109, 105, 110, 117, 116, 101], [115, 101, 99, 111, 110, 100]]
+
+/-- tokens `<n> <unit>[s]` of the non-zero fields -/
+def intervalTokens : List Int → List Bytes → List Bytes
+  | v :: vs, u :: us =>
+    (if v = 0 then [] else [intDigits v, if v = 1 ∨ v = -1 then u else u ++ [115]]) ++
+      intervalTokens vs us
+  | _, _ => []
+
+def joinSp : List Bytes → Bytes
+  | [] => []
+  | [t] => t
+  | t :: ts => t ++ 32 :: joinSp ts
+
+/-- `Interval::fmt` -/
+def displayInterval (months days ms : Int) : Bytes :=
+  joinSp (intervalTokens (intervalFields months days ms) unitNames)
+
+def isAsciiWs (b : UInt8) : Bool := b = 32 || b = 9 || b = 10 || b = 12 || b = 13
+
+/-- `split_ascii_whitespace` after `replace('_', " ")` -/
+def tokenize : Bytes → Bytes → List Bytes
+  | [], cur => if cur.isEmpty then [] else [cur.reverse]
+  | b :: bs, cur =>
+    if isAsciiWs b || b = 95 then
+      (if cur.isEmpty then tokenize bs [] else cur.reverse :: tokenize bs [])
+    else tokenize bs (b :: cur)
+
+def unitIndex (t : Bytes) : Option Nat :=
+  if t = [121, 101, 97, 114] ∨ t = [121, 101, 97, 114, 115] then some 0
+  else if t = [109, 111, 110, 116, 104] ∨ t = [109, 111, 110, 116, 104, 115] then some 1
+  else if t = [100, 97, 121] ∨ t = [100, 97, 121, 115] then some 2
+  else if t = [104, 111, 117, 114] ∨ t = [104, 111, 117, 114, 115] then some 3
+  else if t = [109, 105, 110, 117, 116, 101] ∨ t = [109, 105, 110, 117, 116, 101, 115] then some 4
+  else if t = [115, 101, 99, 111, 110, 100] ∨ t = [115, 101, 99, 111, 110, 100, 115] then some 5
+  else none
+
+/-- the token loop of `Interval::from_str`: fields, pending number -/
+def intervalLoop : List Bytes → List Int → Option Int → Out (List Int)
+  | [], fs, _ => .ok fs
+  | t :: ts, fs, some v =>
+    match unitIndex t with
+    | some i => intervalLoop ts (fs.set i v) none
+    | none => .err
+  | t :: ts, fs, none =>
+    match parseIntRange i32Lo i32Hi t with
+    | .ok v => intervalLoop ts fs (some v)
+    | _ => .err
+
+def inI32 (v : Int) : Bool := i32Lo ≤ v && v ≤ i32Hi
+
+/-- `Interval::from_str`; the final i32 arithmetic panics on overflow (debug build) -/
+def parseInterval (s : Bytes) : Out (Int × Int × Int) :=
+  match intervalLoop (tokenize s []) [0, 0, 0, 0, 0, 0] none with
+  | .ok [y, mo, d, h, mi, se] =>
+    if inI32 (y * 12) && inI32 (y * 12 + mo) && inI32 (h * 60) && inI32 (h * 60 + mi) &&
+       inI32 ((h * 60 + mi) * 60) && inI32 ((h * 60 + mi) * 60 + se) &&
+       inI32 (((h * 60 + mi) * 60 + se) * 1000)
+    then .ok (y * 12 + mo, d, ((h * 60 + mi) * 60 + se) * 1000)
+    else .panic
+  | .ok _ => .err
+  | .err => .err
+  | .panic => .panic
 
 end V19
 end RlModel
